@@ -252,6 +252,53 @@ func c09Unconditional(w *World, r *Report, tp *tpAnchors) {
 		}
 	}
 	r.Ob(ri, w.FnName(h)+"|always-forwards-same-request", h.Pos(), okN, "next.ServeHTTP must be called on every path with the same request and writer")
+	// the removal cannot be bypassed: without the trusted edge, the request is handed on only through the removal loop
+	okB := len(next) == 1 && len(tp.delCalls) > 0
+	if okB {
+		hdrs := map[*ssa.BasicBlock]bool{}
+		for _, d := range tp.delCalls {
+			// the innermost loop header dominating the Del block
+			var best *ssa.BasicBlock
+			for _, b := range h.Blocks {
+				for _, sb := range b.Succs {
+					if sb.Dominates(b) && sb.Dominates(d.Block()) && reach(d.Block(), nil)[b] {
+						if best == nil || best.Dominates(sb) {
+							best = sb
+						}
+					}
+				}
+			}
+			if best == nil {
+				best = d.Block()
+			}
+			hdrs[best] = true
+		}
+		seen := map[*ssa.BasicBlock]bool{}
+		work := []*ssa.BasicBlock{h.Blocks[0]}
+		for len(work) > 0 {
+			b := work[len(work)-1]
+			work = work[:len(work)-1]
+			if seen[b] || hdrs[b] {
+				continue
+			}
+			seen[b] = true
+			for i, sb := range b.Succs {
+				cutEdge := false
+				for _, f := range edgeFacts(b, i) {
+					if f.Kind == FTrue && isTrust(f.V) {
+						cutEdge = true
+					}
+				}
+				if !cutEdge {
+					work = append(work, sb)
+				}
+			}
+		}
+		if seen[next[0].Block()] {
+			okB = false
+		}
+	}
+	r.Ob(ri, w.FnName(h)+"|strip-cannot-be-bypassed", h.Pos(), okB, "the request of a peer that is not known to be trusted can reach next.ServeHTTP without passing the removal of the forwarded headers")
 }
 
 func c09TrustFromConnection(w *World, r *Report, tp *tpAnchors) {
